@@ -594,6 +594,10 @@ package sizes
 //@ func (*Threshold).Set
 //@   modifies *t
 //@   call 0 strconv.ParseFloat as pf
+// the threshold is parsed at the precision of the levels it is compared with
+// (float64): a coarser parse makes "value/reference >= threshold" disagree with
+// the JSON levelOfConcern for thresholds like 0.1 (C11)
+//@   call 0 strconv.ParseFloat assert same(arg_0, s) && arg_1 == 64
 //@   ensures result == nil ==> same(*t, pf0) && pf1 == nil
 //@   ensures result != nil ==> same(*t, old(*t))
 
@@ -606,6 +610,7 @@ package sizes
 //@ lemma last_wins: forall a, b, c float64 :: same(ite(true, b, a), ite(true, b, c))
 
 //@ property C14: (*Threshold).Set (*thresholdFlagValue).Set (*NameStyle).Set lemma/last_wins
+//@ property C11: (*Threshold).Set
 
 //@ property C08: (*Path).BestPath (*Path).Path (*Path).TreePrefix (*Path).String setPath (*HistorySize).recordBlob (*HistorySize).recordTree (*HistorySize).recordCommit (*HistorySize).recordTag (*item).Footnote
 //@ property C19: (*Path).MarshalJSON (*item).MarshalJSON
